@@ -450,7 +450,15 @@ func Deep() map[string]interface{} {
 	return map[string]interface{}{"a": map[string]interface{}{"b": map[string]interface{}{"c": l(), "cc": d, "c2": map[string]interface{}{"d": d["d"]}}},
 		"s": "scalar", "m": map[string]interface{}{"s": "x"}, "m3": map[string]interface{}{"a": 1, "b": 2, "c": 3},
 		"l": []interface{}{[]interface{}{1, 2}, []interface{}{3}}, "st": struct{ A int }{1}, "u_str": "unk", "X": 1, "Y": "b", "Tags": []string{"t1", "t2"},
-		"big": func() []int { b := make([]int, 70); b[69] = 39; return b }(), "num": 1}
+		"big": func() []int { b := make([]int, 70); b[69] = 39; return b }(), "num": 1,
+		// a long list whose neighbours are of different numeric kinds (every element is compared in its own kind)
+		"mixed": func() []interface{} {
+			var l []interface{}
+			for i := 0; i < 60; i++ {
+				l = append(l, 2+i, float64(2+i), uint8(2+i), int8(3), float32(2.5))
+			}
+			return append(l, 1.0)
+		}()}
 }
 
 // Deep2 has the shape of Deep with other contents.
